@@ -461,6 +461,28 @@ def check_C07(tier, seed, replay):
         lambda c: sum(1 for h in c.exp.get("hist", []) if h["ev"] == "info" and h["r"] == "lrloop") >= 3,
         require=("LrHit", "LrSeed", "LrGrow", "LrStop"),
         assumptions=["termination on the real code is a per-case watchdog (20 s without progress)"])
+    if not replay:
+        # the arithmetic of the growth loop by itself (spec/LeftRecGrowth.tla), whatever the body answers: at most
+        # N + 2 evaluations, the longest answer is returned; the loop with `>=` for `>` must be refuted
+        l0 = tlc_simple("lrgrowth_strict", "LeftRecGrowth.tla", "LeftRecGrowth_strict.cfg", tier, workers=2)
+        if l0["rc"] != 0:
+            raise ToolError("LeftRecGrowth violates Bounded / Longest / Monotone:\n%s" % (l0["violation"] or "")[:2000])
+        l1 = tlc_simple("lrgrowth_nonstrict", "LeftRecGrowth.tla", "LeftRecGrowth_nonstrict.cfg", tier, workers=2)
+        if l1["rc"] == 0:
+            raise ToolError("vacuity: TLC no longer refutes the growth loop that accepts a result of the same length")
+        res.coverage["growth_loop_states"] = l0["distinct"]
+        res.coverage["excluded_loops_refuted_by_tlc"] = ["accept_equal_length"]
+        if tier == "thorough":
+            import re
+            import subprocess
+            try:
+                p_ = subprocess.run(["tlapm", "--threads", "8", "--cleanfp", "-I", "..", "LeftRecGrowthProofs.tla"],
+                                    cwd=os.path.join(vlib.SPEC, "proofs"), stdout=subprocess.PIPE, stderr=subprocess.STDOUT, text=True, timeout=900)
+                m = re.search(r"All (\d+) obligations? proved", p_.stdout)
+                res.coverage["tlaps_growth_loop"] = ({"obligations": int(m.group(1)), "proved": int(m.group(1))} if m
+                                                     else {"failed": p_.stdout[-400:]})
+            except Exception as ex:  # noqa
+                res.coverage["tlaps_growth_loop"] = {"not_run": str(ex)[:200]}
     return res
 
 
